@@ -2,7 +2,7 @@ SPECIFICATION Spec
 CONSTANTS
   MaxOff = 8
   Bounds = {"c16", "b48", "m48", "m16"}
-  HazardNames = {"mb2", "mb3", "mb4", "mbrun", "crlf", "crcr", "name", "namesp", "comment", "cdata", "charref", "etag", "pi", "attrmb", "badcdend", "badetag", "badbyte", "badcont"}
+  HazardNames = {"mb2", "mb3", "mb4", "mbrun", "crlf", "crcr", "name", "namesp", "comment", "cdata", "charref", "etag", "pi", "attrmb", "badcdend", "badetag", "badbyte", "badcont", "trunc"}
   Parts <- PartsThorough
   FileReads <- FileReadsDef
 CONSTRAINT Emit
